@@ -130,8 +130,8 @@ func buildLayout(dir string, l dbLayout) string {
 			return b
 		}
 		keys := [][]byte{[]byte("a"), []byte("ab"), []byte("b"), {}, {0, 1, 2}}
-		for i := 0; i < rng.Intn(6); i++ {
-			keys = append(keys, append([]byte("k"), blob()...))
+		for i, n := 0, rng.Intn(6); i < n; i++ {
+			keys = append(keys, append([]byte{'k', byte('0' + i)}, blob()...)) // distinct by construction
 		}
 		// a consistent data set: tracker flags describe the entry tables
 		for _, k := range keys {
@@ -386,7 +386,9 @@ func TestC24(t *testing.T) {
 				}
 			}
 		}
-		if len(missing) == 1 && missing[0] == "idx_hash" {
+		// the listed class is exactly: the file already said user_version = 1, had
+		// all four tables and no index of that name, and was accepted as it is
+		if len(missing) == 1 && missing[0] == "idx_hash" && before != nil && before.UserVersion == 1 && before.Objects["idx_hash"] == "" {
 			if ev.Known(id, sigNoIndex) {
 				rec.Excluded(sigNoIndex)
 				return
